@@ -30,7 +30,7 @@ class _Collect(TypeCase):
         return super().exec(s, st)
 
 
-def check(ctx: Ctx) -> None:
+def _main_check(ctx: Ctx) -> None:
     _check(ctx)
     _extra(ctx)
 
@@ -340,3 +340,9 @@ def _extra(ctx):
     ctx.floor("pairing-table cases decided", check_pairings(ctx), 14)
     from ..engines.structure import interleave_rule
     interleave_rule(ctx)
+
+
+def check(ctx: Ctx) -> None:
+    _main_check(ctx)
+    from .common import view_deps
+    view_deps(ctx)
